@@ -137,6 +137,42 @@ def gen(tier, rng, harness, driver):
     return lines
 
 
+def extra(res, findings, tier, rng, harness, driver):
+    """LLVMSpec.gepType (transcribed by hand from the LangRef) validated against LLVM 14 itself: the getelementptr with its result USED at the expected
+    type is handed to llvm-as; where LLVM accepts the instruction it must accept the use"""
+    from . import llvmref
+    if not llvmref.available():
+        return {"llvm_reference": {"available": False}}
+    cases = [gen_case(rng) for _ in range(400 if tier == "quick" else 8000)]
+    args = [("%s %s %s" % (e, s_, " ".join(ix))).rstrip() for e, s_, ix in cases]
+    spec = C.run_lines([driver], ["gep.spec " + a for a in args], shards=8)
+    ops = ["gep.usetext %s %s" % (a, sp) for a, sp in zip(args, spec) if sp not in ("illtyped", "unknown-op")]
+    outs = C.run_lines([harness, "run"], ops, shards=8)
+    pairs = []
+    for op, o in zip(ops, outs):
+        p = o.split()
+        if len(p) == 2:
+            pairs.append((op, bytes.fromhex(p[0]).decode("latin-1"), bytes.fromhex(p[1]).decode("latin-1")))
+    stats, bad = llvmref.validate_spec(pairs)
+    for name, msg, use in bad:
+        res.violation("LLVMSpec.gepType (the rule the theorems are stated against) disagrees with LLVM 14: %s: llvm-as rejects the use of the result at the expected type: %s" % (name, msg),
+                      {"ops": [name], "llvm_input": use, "reference": "llvm-as-14"}, found_input=False)
+    # the converse for ill-typed operand lists: where the spec is undefined LLVM must reject the instruction
+    ill = ["gep.usetext %s 693332" % a for a, sp in zip(args, spec) if sp == "illtyped"]
+    outs2 = C.run_lines([harness, "run"], ill, shards=8) if ill else []
+    accepted_ill = []
+    for op, o in zip(ill, outs2):
+        p = o.split()
+        if len(p) == 2:
+            _, st, _ = llvmref.assemble(bytes.fromhex(p[0]).decode("latin-1"))
+            if st == "ok":
+                accepted_ill.append(op)
+    for op in accepted_ill[:5]:
+        res.violation("LLVMSpec.gepType is undefined on operands LLVM 14 accepts: %s" % op, {"ops": [op], "reference": "llvm-as-14"}, found_input=False)
+    return {"llvm_reference": dict(stats, available=True, cases=len(pairs), ill_typed_checked=len(ill), ill_typed_accepted_by_llvm=len(accepted_ill), tool="llvm-as-14",
+                                   what="LLVMSpec.gepType used at LLVM's own type check")}
+
+
 def nontrivial(ln, model_out):
     return len(ln.split()) >= 5
 
